@@ -113,6 +113,12 @@ class DeleteNode(BasicAction):
             val = self.tracks.get_node_attr(node, key)
             if val is not None:
                 self.attributes[key] = val
+        # ... and every other attribute stored on the node (e.g. one added with
+        # UpdateNodeAttrs but not registered as a feature), so that the inverse
+        # restores the node exactly
+        for key, val in self.tracks.graph.nodes[node].items():
+            if key not in self.attributes and val is not None:
+                self.attributes[key] = val
 
         self.pixels = self.tracks.get_pixels(node) if pixels is None else pixels
         self._apply()
